@@ -2,6 +2,11 @@
 import TbbVerif.Core.Cint
 namespace TbbVerif.Generated.C20
 open TbbVerif.Cint
+def actCleanup : Nat := 2
+def actInvalid : Nat := 0
+def actNone : Nat := 4
+def actNotify : Nat := 3
+def actRegisterWaiter : Nat := 1
 def ssActive : Nat := 0
 def ssNotified : Nat := 2
 def ssSize : Nat := 4
@@ -17,6 +22,19 @@ def stealOk (isolation task_iso : Nat) : Bool := ((decide (isolation = (0 : Nat)
 def mailSkip (isolation task_iso : Nat) : Bool := ((decide (isolation ≠ (0 : Nat))) && (decide (task_iso ≠ isolation)))
 def fifoOk (isolation : Nat) : Bool := (true && (decide (isolation = (0 : Nat))))
 def critSpecific (isolation : Nat) : Bool := (decide (isolation ≠ (0 : Nat)))
+/-- arena_co_cache capacity = coCacheFactor * num_slots (arena.cpp `my_co_cache.init`) -/
+def coCacheFactor : Nat := 4
+def poolPopClears : Bool := true
+def poolFinalizeFirst : Bool := true
+def poolRecallChecked : Bool := true
+def poolActionBeforeSwitch : Bool := true
+def poolClearsAction : Bool := true
+def poolCleanupCaches : Bool := true
+def poolRecallPointGuard : Bool := true
+def poolXchgThenPush : Bool := true
+def poolSelfRecallChecked : Bool := true
+/-- function_task / start_for / delegated_task: the body runs, then finalize releases the wait reference -/
+def waitReleaseAfterBody : Bool := true
 /-- isolation of the dispatcher a suspending thread moves onto, as a function of the suspender's (observed on 28 suspensions) -/
 def coInit (suspender_iso : Nat) : Nat := 0
 
